@@ -37,12 +37,12 @@ PROPS = {
     "C09": dict(title="Evaluate is total", level="proof", lean=['Props.C09', 'Props.C10', 'Props.C03', 'Ties.EvaluateShape', 'Ties.Dispatch'], theorems={},
                 frags=[("matrix", 300, 15000), ("eval", 1500, 40000)], rule="complete operator x value-shape matrix (every reflect kind incl. invalid, nil/odd elements in containers) x 3 placements, plus random nesting"),
     "C10": dict(pinned=True, title="creation total on arbitrary bytes", level="proof", lean=['Props.C10', 'Props.C09', 'Ties.PinnedGrammar', 'Ties.Options'], theorems={},
-                frags=[("parse-bytes", 1500, 60000), ("parse-tokens", 1500, 100000)], rule="byte-level mutations incl. invalid UTF-8/NUL/unterminated quotes; exhaustive token sequences; shape oracle on CreateEvaluator/CreateFilter/Parse"),
+                frags=[("parse-bytes", 1500, 60000), ("parse-tokens", 1500, 100000), ("parse-deriv", 300, 10000)], rule="byte-level mutations incl. invalid UTF-8/NUL/unterminated quotes; exhaustive token sequences; shape oracle on CreateEvaluator/CreateFilter/Parse"),
     "C11": dict(title="max-expressions budget exact", level="proof", lean=['Props.C11', 'Ties.Options'], theorems={},
                 frags=[("budget", 60, 1200)], rule="inputs (valid, invalid, nested parentheses) x budgets N-3..N+3, 1..3, geometric sweep to 2^22, 2^40, 2^63, 2^64-1; both option spellings; step counter compared exactly with the model"),
     "C12": dict(title="concurrent use", level="proof", lean=['Props.C12', 'Ties.Effects'], theorems={}, frags=[], race=True,
                 rule="k goroutines on one evaluator/filter under the Go race detector, first use and steady state; results compared with the sequential run"),
-    "C13": dict(title="purity / history independence", level="proof", lean=['Props.C13', 'Ties.Effects'], theorems={},
+    "C13": dict(title="purity / history independence", level="proof", lean=['Props.C13', 'Ties.EffectsC13'], theorems={},
                 frags=[("hist", 150, 5000)], rule="histories of 2..8 calls on one evaluator (data, errors, matches mixed), each compared with a fresh evaluator; datum snapshot before/after; Expression()"),
     "C14": dict(title="determinism under map order", level="proof", lean=['Props.C14'], theorems={},
                 frags=[("det", 150, 3000), ("eval", 800, 20000)], rule="quantifiers/filters over maps of 2..8 entries with mixed T/F/E elements, each evaluated 41 times"),
